@@ -78,7 +78,7 @@ CHECKS['C14'] = dict(
 
 CHECKS['C02'] = dict(
     engine='pipeline-sim + real javac peer', design='DESIGN.md §4 C02',
-    text='Batches of 1-3 Java programs generated one after the other in one simulated process, '
+    text='Batches of 1-5 Java programs generated one after the other in one simulated process, '
          'original and erased texts written in the driver\'s layout and compiled by the real '
          'javac 17 exactly as JavaCompiler builds the command, in a batch and alone; no error '
          'diagnostic, batch verdict == solo verdict, and the tool\'s own output analysis agrees '
